@@ -88,9 +88,9 @@ func newDialModel(p *core.Prog, r *core.Run, rule string) *dialModel {
 			m.worker = l
 		case waits:
 			m.closer = l
-		case resolves && l.Parent() == m.dial:
+		case resolves && core.CreatorOf(l) == m.dial:
 			m.targets = l
-		case sends && l.Parent() == m.dial && len(callSites(p, []*ssa.Function{l}, `close`)) > 0:
+		case sends && core.CreatorOf(l) == m.dial && len(callSites(p, []*ssa.Function{l}, `close`)) > 0:
 			m.feeder = l
 		}
 	}
@@ -157,7 +157,9 @@ func c17Rules(p *core.Prog, r *core.Run) {
 
 	// --- KEEP
 	needECHok := false
-	for _, st := range storesTo(p, all, "EncryptedClientHelloConfigList") {
+	// (the census covers the whole package: the default DialFunc of NewDialer
+	// and any other helper get the config Dial prepared and must not weaken it)
+	for _, st := range storesTo(p, p.PkgFuncs(Ech), "EncryptedClientHelloConfigList") {
 		root := core.Root(st.Parent())
 		v := p.X(st.Val)
 		fs := p.Facts(st.Block())
@@ -272,6 +274,13 @@ func c17Rules(p *core.Prog, r *core.Run) {
 				}) {
 					bad = "a resolution result"
 				}
+				// the host belongs to this entry of the address list: it is not what
+				// an earlier entry left behind
+				for _, a := range v.Alts() {
+					if a.Op == "rec" || a.Op == "const" && a.Name == "zero" && len(v.Alts()) > 1 {
+						bad = "carried over from the previous entry (or unset)"
+					}
+				}
 				// the host is cut off the address by net.SplitHostPort (which knows
 				// bracketed IPv6 literals and bare ones), nothing home-made
 				v.Walk(func(e *core.Expr) bool {
@@ -367,7 +376,7 @@ func c17Rules(p *core.Prog, r *core.Run) {
 						direct = true
 					}
 				}
-				if fn == m.dialOne || fn.Parent() == m.dialOne {
+				if fn == m.dialOne || core.CreatorOf(fn) == m.dialOne {
 					// dialOne's own parameter: its argument at the single call site is a clone (PAIR)
 					continue
 				}
